@@ -878,10 +878,9 @@ func ruleIndexEntryComplete(r *Report) {
 				if !ok {
 					continue
 				}
-				st := derefStruct(fa.X.Type())
 				for _, rr := range *fa.Referrers() {
 					if sto, ok := rr.(*ssa.Store); ok && sto.Addr == ssa.Value(fa) {
-						set[st.Field(fa.Field).Name()] = true
+						set[refField(fa.X.Type(), fa.Field)] = true
 					}
 				}
 			}
@@ -949,6 +948,7 @@ func ruleMapLookupVerified(r *Report) {
 	r.Rule(rule, 2, "MapKeyIndex.Get and Contains trust a map hit only after comparing the stored key with the requested key (bytes.Equal / bytes.Compare on the key parameter), or delegate to the slice index")
 	p := r.P
 	ruleMapFallbackScope(r)
+	ruleMapLoaderLongKeys(r)
 	for _, k := range []string{"sstables.MapKeyIndex.Get", "sstables.MapKeyIndex.Contains"} {
 		fn := r.NeedFunc(rule, k)
 		if fn == nil {
